@@ -111,6 +111,9 @@ struct KeyHist {
 }
 
 pub struct World {
+    /// (database name, key) -> another (value, version) a restart may bring back besides the one of the last executed
+    /// snapshot: a write accepted WHILE that snapshot was running may or may not be part of it
+    pub alt: BTreeMap<(String, String), (String, i32)>,
     pub node: Option<Node>,
     pub dir: String,
     pub admin: Vec<Session>, // one admin session per database
@@ -137,7 +140,7 @@ fn token(db: usize) -> String {
 impl World {
     pub fn new(dir: &str, strategies: &[String]) -> World {
         let node = Node::boot_single(dir);
-        let mut w = World { node: Some(node), dir: dir.to_string(), admin: vec![], strategies: strategies.to_vec(), snap: BTreeMap::new(), queued: vec![], hist: BTreeMap::new(), flags: Flags::default() };
+        let mut w = World { alt: BTreeMap::new(), node: Some(node), dir: dir.to_string(), admin: vec![], strategies: strategies.to_vec(), snap: BTreeMap::new(), queued: vec![], hist: BTreeMap::new(), flags: Flags::default() };
         w.connect(true);
         w
     }
@@ -212,6 +215,7 @@ fn executed(w: &mut World, pre: BTreeMap<String, DbImage>) {
     let mut done = vec![];
     for (db, reclaim) in queued.iter() {
         if let Some(img) = pre.get(DBS[*db]) {
+            w.alt.retain(|(d, _), _| d != DBS[*db]);
             w.snap.insert(DBS[*db].to_string(), img.clone());
             done.push((*db, *reclaim));
         }
@@ -425,7 +429,9 @@ pub fn restart_guarded(w: &mut World, clean: bool, may_boot: &dyn Fn() -> bool) 
                     match got.keys.get(k) {
                         None => out.push(("missing-key".into(), m, format!("database {}: key {:?} ({:?}@{}) lost", name, k, short(v), ver))),
                         Some((gv, gver)) => {
-                            if gv != v {
+                            if w.alt.get(&(name.to_string(), k.clone())) == Some(&(gv.clone(), *gver)) {
+                                // the write accepted while the snapshot was running is part of it
+                            } else if gv != v {
                                 out.push(("wrong-value".into(), m, format!("database {}: key {:?} was {:?}@{}, restored {:?}@{}", name, k, short(v), ver, short(gv), gver)));
                             } else if gver != ver {
                                 out.push(("wrong-version".into(), m, format!("database {}: key {:?} version {} before, {} after", name, k, ver, gver)));
